@@ -6,6 +6,7 @@ import (
 	"context"
 	"encoding/json"
 	"fmt"
+	"hash/fnv"
 	"io"
 	"os"
 	"os/exec"
@@ -49,6 +50,7 @@ type Ctx struct {
 	infraErr   []string
 	tlcSeq     int
 	level      string
+	corrupt    func(w *TraceWriter)
 }
 
 // Violation is a confirmed disagreement between the real code and the abstract specification.
@@ -396,6 +398,9 @@ func (c *Ctx) validate(f *Family, cases []json.RawMessage, shards int) (*traceOu
 	}
 	out := &traceOutcome{mismatch: map[int]string{}, drift: map[int]string{}}
 	for i, cs := range cases {
+		h := fnv.New64a()
+		h.Write(cs)
+		c.Distinct(f.Name + ":" + strconv.FormatUint(h.Sum64(), 36))
 		w := ws[i%shards]
 		w.begin(i)
 		func() {
@@ -417,6 +422,9 @@ func (c *Ctx) validate(f *Family, cases []json.RawMessage, shards int) (*traceOu
 		w.w.Flush()
 		w.f.Close()
 		out.events += int64(w.line)
+		if c.corrupt != nil { // self-test of the binding: tamper with the recorded trace before TLC sees it
+			c.corrupt(w)
+		}
 	}
 	var wg sync.WaitGroup
 	var emu sync.Mutex
@@ -665,10 +673,7 @@ func (c *Ctx) Finish() {
 	cov["mc_runs"] = c.mcRuns
 	cov["model_drift_cases"] = c.drift
 	cov["evaluations"] = c.evals + c.traces
-	dn := int64(len(c.distinct))
-	if dn < 2 {
-		dn = c.traces // every trace case is generated distinct by construction where no key is recorded
-	}
+	dn := int64(len(c.distinct)) // distinct cases by content hash (per family)
 	cov["distinct_nontrivial"] = dn
 	if c.rule != "" {
 		cov["rule"] = c.rule
@@ -683,7 +688,9 @@ func (c *Ctx) Finish() {
 	}
 	b, _ := json.MarshalIndent(ev, "", " ")
 	os.MkdirAll(filepath.Join(verifRoot, "evidence"), 0o755)
-	os.WriteFile(filepath.Join(verifRoot, "evidence", c.Prop+".json"), append(b, '\n'), 0o644)
+	if strings.HasPrefix(c.Prop, "C") { // evidence files exist for properties only (SELFTEST prints its result)
+		os.WriteFile(filepath.Join(verifRoot, "evidence", c.Prop+".json"), append(b, '\n'), 0o644)
+	}
 	if os.Getenv("VERIF_KEEP") == "" {
 		os.RemoveAll(c.Work)
 	}
